@@ -150,3 +150,7 @@ Definition write_srt_c (l : list sitem) : res str :=
   else do body <- items_bytes_c 0 l;
        let c := bom ++ body in
        slice_to c (length c - 1) 265.
+
+(* Subtitles.Items is a []*Item whose elements may be nil: WriteToSRT starts with s.Items = nonNilItems(s.Items)
+   (srt.go:236), then proceeds as above on the remaining items *)
+Definition write_srt_items_c (l : list (option sitem)) : res str := write_srt_c (somes l).
